@@ -70,7 +70,8 @@ func RunSeq(prog *ssa.Program, sizes typesSizes, fn *ssa.Function, job *SeqJob) 
 	if err != nil {
 		return nil, nil, err
 	}
-	defer s.Close()
+	defer func() { s.Close() }()
+	var acc statsAcc
 	r := NewResults()
 	fuel := job.Fuel
 	if fuel == 0 {
@@ -81,15 +82,25 @@ func RunSeq(prog *ssa.Program, sizes typesSizes, fn *ssa.Function, job *SeqJob) 
 		maxPaths = 2000000
 	}
 	work := [][]int{nil}
+	constCache := map[*ssa.Const]Value{}
 	for len(work) > 0 {
 		if r.Paths >= maxPaths {
 			r.Unsupported = append(r.Unsupported, fmt.Sprintf("path limit %d reached", maxPaths))
 			break
 		}
+		if r.Paths > 0 && r.Paths%restartEvery == 0 {
+			// a fresh solver process drops the definitions accumulated so far
+			acc.add(s.Stats)
+			s.Close()
+			if s, err = smt.New(kind, f, to); err != nil {
+				return nil, nil, err
+			}
+		}
 		prefix := work[len(work)-1]
 		work = work[:len(work)-1]
 		w := &World{Prog: prog, Sizes: sizes, Params: job.Params}
 		m := newMachine(w, f, s, r, fuel)
+		m.constCache = constCache
 		m.prefix = prefix
 		f.ResetFresh()
 		s.Push()
@@ -100,8 +111,28 @@ func RunSeq(prog *ssa.Program, sizes typesSizes, fn *ssa.Function, job *SeqJob) 
 			break
 		}
 	}
-	st := s.Stats
+	for fn, n := range r.FuncPtr {
+		r.Funcs[fn.String()] += n
+	}
+	acc.add(s.Stats)
+	st := acc.Stats
 	return r, &st, nil
+}
+
+const restartEvery = 300
+
+type statsAcc struct{ smt.Stats }
+
+func (a *statsAcc) add(s smt.Stats) {
+	a.Queries += s.Queries
+	a.Sat += s.Sat
+	a.Unsat += s.Unsat
+	a.Unknown += s.Unknown
+	a.Errors += s.Errors
+	a.Seconds += s.Seconds
+	if s.MaxQuery > a.MaxQuery {
+		a.MaxQuery = s.MaxQuery
+	}
 }
 
 func (m *Machine) runPath(fn *ssa.Function) {
